@@ -4,7 +4,7 @@ constants, variables, arrays, a SUB and FUNCTIONs, so that every filler means so
 
 PRE = ['TYPE MyType', '  X AS INTEGER', '  S AS STRING * 4', 'END TYPE', 'CONST MyConst = 5', 'DIM Arr(3), ArrS$(3), N%, S$, D#',
        'DIM Rec AS MyType', 'DIM RecArr(2) AS MyType', 'N% = 1', 'S$ = "ab"']
-POST = ['END', 'MyLabel:', 'RESUME NEXT', 'SUB MySub (P%)', 'END SUB', 'SUB MyArrSub (PA())', 'END SUB', 'FUNCTION MyFn% (P%)', '  MyFn% = P%', 'END FUNCTION',
+POST = ['END', 'MyLabel:', 'RESUME NEXT', 'SUB MySub (P%)', 'END SUB', 'SUB MyArrSub (PA())', 'END SUB', 'SUB MyStrArrSub (PS$())', 'END SUB', 'FUNCTION MyFn% (P%)', '  MyFn% = P%', 'END FUNCTION',
         'FUNCTION MyStr$ (P$)', '  MyStr$ = P$', 'END FUNCTION']
 
 # name -> text ; kinds in Slots.tla ("n": fits a name position, "e": fits an expression position)
@@ -50,6 +50,8 @@ FILLERS = {
     "Pn AS LONG": "Pn AS LONG", "Pu AS Undef": "Pu AS Undef", "Pq%()": "Pq%()",
     "#99999999999": "#99999999999", "#256": "#256", "#0": "#0", "#-1": "#-1", "#1.5": "#1.5", "#N%": "#N%", "#": "#",
     "(Arr())": "(Arr())", "ArrS$()": "ArrS$()", "RecArr()": "RecArr()", "Arr(1)()": "Arr(1)()",
+    "FxArr()": "FxArr()", "(FxArr())": "(FxArr())", "FxArr(1)": "FxArr(1)",
+    "My.Const": "My.Const", "My.Const%": "My.Const%", "MY.CONST": "MY.CONST", "My.Const.X": "My.Const.X",
     "VARPTR": "VARPTR", "VARSEG": "VARSEG", "LEN": "LEN", "MID$": "MID$", "CHR$": "CHR$", "EOF": "EOF", "PEEK": "PEEK", "INSTR": "INSTR",
     "UBOUND": "UBOUND", "CVD": "CVD", "MKD$": "MKD$", "VAL": "VAL", "STR$": "STR$", "VARPTR()": "VARPTR()", "LEN()": "LEN()",
     "Qf": "Qf", "Qf%": "Qf%", "Qf!": "Qf!", "Qg": "Qg", "Qg$": "Qg$",
@@ -82,7 +84,8 @@ TEMPLATES = {
     "defint": ["DEFINT {1}-{2}"], "member-assign": ["{1}.{2} = 1"], "elem-assign": ["{1}({2}) = 1"], "elem-member-assign": ["{1}({2}).X = 1"],
     "elem-print": ["PRINT {1}({2})"], "elem-member-print": ["PRINT {1}({2}).X"], "two-subscripts": ["N% = {1}({2}, {2})"], "swap-assign": ["{1} = {1} + {2}"],
     "field-two": ['OPEN "R.DAT" FOR RANDOM AS #1 LEN = 8', "FIELD #1, {1} AS F$", "FIELD #1, {2} AS G$, 4 AS H$", "GET #1, 1", "PRINT F$; G$; H$"],
-    "arr-arg": ["MyArrSub {1}"], "close-n": ["CLOSE {1}"], "print-n": ["PRINT {1}, 1"], "input-n": ["INPUT {1}, N%"], "get-n": ["GET {1}, 1"],
+    "dotted-const-assign": ["CONST My.Const = 1", "{1} = 2"], "dotted-const-input": ["CONST My.Const = 1", "READ {1}", "DATA 5"],
+    "arr-arg": ["MyArrSub {1}"], "str-arr-arg": ["DIM FxArr(2) AS STRING * 3", "MyStrArrSub {1}"], "close-n": ["CLOSE {1}"], "print-n": ["PRINT {1}, 1"], "input-n": ["INPUT {1}, N%"], "get-n": ["GET {1}, 1"],
     "fixed-member": ["Rec.S = {1}", "PRINT Rec.S; LEN(Rec.S)"], "fixed-var": ["DIM Fx AS STRING * 3", "Fx = {1}", "PRINT Fx; LEN(Fx)"],
     "fixed-lset": ['OPEN "R.DAT" FOR RANDOM AS #1 LEN = 4', "FIELD #1, 4 AS F$", "LSET F$ = {1}", "PRINT F$; LEN(F$)"],
     "using-field": ['PRINT USING "\\ \\"; {1}'], "using-bang": ['PRINT USING "!"; {1}'], "fixed-input": ["INPUT Rec.S", "PRINT Rec.S; {1}"],
